@@ -14,6 +14,9 @@ import (
 
 type opFunc func(args []string) string
 
+var debug = os.Getenv("PQH_DEBUG") != ""
+var stderr = os.Stderr
+
 var ops = map[string]opFunc{}
 
 func register(name string, f opFunc) { ops[name] = f }
